@@ -78,7 +78,7 @@ Definition pool_inv (cid : N) (c : chain) (p : pool) : Prop :=
   (forall e, In e (p_pending p) -> sound cid c e) /\
   (forall e, In e (p_pending p) -> is_committed p e = false).
 
-Lemma pool_inv_add cid c p p' e :
+Lemma pool_inv_add cid c p p' :
   pool_inv cid c p ->
   p_state p' = p_state p -> p_committed p' = p_committed p ->
   (forall x, In x (p_pending p') -> In x (p_pending p) \/ (sound cid c x /\ is_committed p x = false)) ->
@@ -93,7 +93,7 @@ Lemma pool_inv_block cid c p mx es p' r :
   pool_inv cid c p -> block_evidence p c mx es = (p', r) -> pool_inv cid c p'.
 Proof.
   intros Hinv H. apply block_evidence_spec in H. destruct H as [Hst [Hco [Hpe _]]].
-  apply (pool_inv_add cid c p p' (e := match es with [] => {| e_hash := 0; e_size := 0; e_a := {| v_idx := 0; v_addr := 0; v_height := 0; v_round := 0; v_type := 0; v_time := 0; v_bid := {| b_hash := 0; b_total := 0; b_phash := 0 |}; v_sig := {| s_id := 0; s_empty := true; s_signer := 0; s_chain := 0; s_type := 0; s_height := 0; s_round := 0; s_bid := {| b_hash := 0; b_total := 0; b_phash := 0 |}; s_time := 0 |} |}; e_b := {| v_idx := 0; v_addr := 0; v_height := 0; v_round := 0; v_type := 0; v_time := 0; v_bid := {| b_hash := 0; b_total := 0; b_phash := 0 |}; v_sig := {| s_id := 0; s_empty := true; s_signer := 0; s_chain := 0; s_type := 0; s_height := 0; s_round := 0; s_bid := {| b_hash := 0; b_total := 0; b_phash := 0 |}; s_time := 0 |} |}; e_total := 0; e_power := 0; e_time := 0 |} | x :: _ => x end)); auto.
+  apply (pool_inv_add cid c p p'); auto.
   intros x Hx. destruct (Hpe x Hx) as [|[_ [Hn Hv]]]; auto. right. split; auto.
   apply verify_ok in Hv. destruct Hinv as [Hc _]. rewrite Hc in Hv. tauto.
 Qed.
@@ -124,73 +124,73 @@ Proof.
   destruct Hinv as [Hc [Hs Hd]].
   destruct o; cbn [step n_chain n_pool op_ok] in *.
   - (* SaveMeta *)
-    intros H; inversion H; subst; clear H. cbn [n_chain n_pool].
+    intros H; inversion H; subst n' ob; clear H. cbn [n_chain n_pool].
     pose proof (chain_le_meta c h t Hok) as Hle.
     split; [|split; auto]. split; auto. split; auto.
     intros e He. eapply sound_mono; eauto.
   - (* SaveVals *)
-    intros H; inversion H; subst; clear H. cbn [n_chain n_pool].
+    intros H; inversion H; subst n' ob; clear H. cbn [n_chain n_pool].
     pose proof (chain_le_vals c h vs Hok) as Hle.
     split; [|split; auto]. split; auto. split; auto.
     intros e He. eapply sound_mono; eauto.
   - (* Peer *)
-    destruct (peer_evidence p c e) as [p' r] eqn:Hp. intros H; inversion H; subst; clear H.
+    destruct (peer_evidence p c e) as [p' r] eqn:Hp. intros H; inversion H; subst n' ob; clear H.
     cbn [n_chain n_pool]. unfold peer_evidence in Hp.
     destruct (validate_basic e).
     + apply add_evidence_spec in Hp. destruct Hp as [Hst [Hco Hpe]].
       split; [|split; [apply chain_le_refl|rewrite Hco; auto]].
-      apply (pool_inv_add cid c p p' (e := e)); auto.
+      apply (pool_inv_add cid c p p'); auto.
       intros x Hx. destruct Hpe as [Hpe|[_ [_ [Hnc [Hv Hpe]]]]]; rewrite Hpe in Hx; auto.
       apply In_put_pending in Hx. destruct Hx as [->|Hx]; auto.
       right. apply verify_ok in Hv. rewrite Hc in Hv. tauto.
-    + inversion Hp; subst. split; [|split; [apply chain_le_refl|auto]]. exact Hpi.
+    + inversion Hp; subst p' r. split; [|split; [apply chain_le_refl|auto]]. exact Hpi.
   - (* Cons *)
-    destruct (add_from_consensus p e) as [p' r] eqn:Hp. intros H; inversion H; subst; clear H.
+    destruct (add_from_consensus p e) as [p' r] eqn:Hp. intros H; inversion H; subst n' ob; clear H.
     cbn [n_chain n_pool]. apply add_from_consensus_spec in Hp.
     destruct Hp as [_ [Hst [Hco Hpe]]]. destruct Hok as [Hso Hnc].
     split; [|split; [apply chain_le_refl|rewrite Hco; auto]].
-    apply (pool_inv_add cid c p p' (e := e)); auto.
+    apply (pool_inv_add cid c p p'); auto.
     intros x Hx. destruct Hpe as [Hpe|[_ Hpe]]; rewrite Hpe in Hx; auto.
     apply In_put_pending in Hx. destruct Hx as [->|Hx]; auto.
   - (* Block *)
-    destruct (block_evidence p c maxnum es) as [p' r] eqn:Hp. intros H; inversion H; subst; clear H.
+    destruct (block_evidence p c maxnum es) as [p' r] eqn:Hp. intros H; inversion H; subst n' ob; clear H.
     cbn [n_chain n_pool].
     split; [eapply pool_inv_block; eauto|split; [apply chain_le_refl|]].
     apply block_evidence_spec in Hp. destruct Hp as [_ [Hco _]]. rewrite Hco; auto.
   - (* Pending *)
-    destruct (pending_evidence p maxbytes) as [l sz]. intros H; inversion H; subst; clear H.
+    destruct (pending_evidence p maxbytes) as [l sz]. intros H; inversion H; subst n' ob; clear H.
     cbn [n_chain n_pool]. split; [exact Hpi|split; [apply chain_le_refl|auto]].
   - (* Update *)
-    destruct (update p st es) as [p' r] eqn:Hp. intros H; inversion H; subst; clear H.
+    destruct (update p st es) as [p' r] eqn:Hp. intros H; inversion H; subst n' ob; clear H.
     cbn [n_chain n_pool]. destruct (pool_inv_update cid c p st es p' r Hpi Hok Hp) as [H1 H2].
     split; [exact H1|split; [apply chain_le_refl|exact H2]].
   - (* Apply *)
     destruct (block_evidence p c maxnum es) as [p1 r1] eqn:Hb.
     pose proof (pool_inv_block cid c p maxnum es p1 r1 Hpi Hb) as Hpi1.
     pose proof (block_evidence_spec _ _ _ _ _ _ Hb) as [_ [Hco1 _]].
-    destruct r1; try (intros H; inversion H; subst; clear H; cbn [n_chain n_pool];
+    destruct r1; try (intros H; inversion H; subst n' ob; clear H; cbn [n_chain n_pool];
       split; [exact Hpi1|split; [apply chain_le_refl|rewrite Hco1; auto]]).
-    destruct (update p1 st es) as [p2 r2] eqn:Hu. intros H; inversion H; subst; clear H.
+    destruct (update p1 st es) as [p2 r2] eqn:Hu. intros H; inversion H; subst n' ob; clear H.
     cbn [n_chain n_pool]. destruct (pool_inv_update cid c p1 st es p2 r2 Hpi1 Hok Hu) as [H1 H2].
     split; [exact H1|split; [apply chain_le_refl|]]. intros k Hk. apply H2. rewrite Hco1. exact Hk.
   - (* Restart *)
-    destruct (restart p st) as [p' r] eqn:Hp. intros H; inversion H; subst; clear H.
+    destruct (restart p st) as [p' r] eqn:Hp. intros H; inversion H; subst n' ob; clear H.
     cbn [n_chain n_pool].
     pose proof (restart_state _ _ _ _ Hp) as Hst.
     apply restart_spec in Hp. destruct Hp as [_ [Hco [Hpe _]]].
     split; [|split; [apply chain_le_refl|rewrite Hco; auto]].
-    split; [destruct Hst as [->| ->]; auto|]. split.
+    split; [cbn [n_pool]; destruct Hst as [Hst|Hst]; rewrite Hst; auto|]. cbn [n_pool n_chain]. split.
     + intros e He. apply Hs, Hpe, He.
     + intros e He. unfold is_committed. rewrite Hco. apply Hd, Hpe, He.
   - (* Gen *)
     destruct (try_add_vote_gen cs hash size va vb) as [| |e] eqn:Hg.
-    + intros H; inversion H; subst; clear H. split; [exact Hpi|split; [apply chain_le_refl|auto]].
-    + intros H; inversion H; subst; clear H. split; [exact Hpi|split; [apply chain_le_refl|auto]].
-    + destruct (add_from_consensus p e) as [p' r] eqn:Hp. intros H; inversion H; subst; clear H.
+    + intros H; inversion H; subst n' ob; clear H. split; [exact Hpi|split; [apply chain_le_refl|auto]].
+    + intros H; inversion H; subst n' ob; clear H. split; [exact Hpi|split; [apply chain_le_refl|auto]].
+    + destruct (add_from_consensus p e) as [p' r] eqn:Hp. intros H; inversion H; subst n' ob; clear H.
       cbn [n_chain n_pool]. apply add_from_consensus_spec in Hp.
       destruct Hp as [_ [Hst [Hco Hpe]]]. destruct (Hok e eq_refl) as [Hso Hnc].
       split; [|split; [apply chain_le_refl|rewrite Hco; auto]].
-      apply (pool_inv_add cid c p p' (e := e)); auto.
+      apply (pool_inv_add cid c p p'); auto.
       intros x Hx. destruct Hpe as [Hpe|[_ Hpe]]; rewrite Hpe in Hx; auto.
       apply In_put_pending in Hx. destruct Hx as [->|Hx]; auto.
 Qed.
@@ -222,18 +222,22 @@ Proof.
   destruct (validate_basic e); [|discriminate]. split; auto.
   unfold add_evidence in H. rewrite Hnp, Hnc in H.
   destruct (verify (n_pool n) (n_chain n) e) eqn:Hv; try discriminate.
-  inversion H; subst. apply verify_ok in Hv. rewrite Hc in Hv. destruct Hv as [Hs He].
+  inversion H; subst p'. apply verify_ok in Hv. rewrite Hc in Hv. destruct Hv as [Hs He].
   split; auto. split; auto.
   unfold is_pending. cbn [p_pending push_list set_list add_pending set_size set_pending].
   apply put_pending_has.
 Qed.
 
+(** Evidence accepted inside a block is either verified now, or has the key (height, hash of
+    the bytes) of a pending entry that was verified (or handed over by consensus) earlier; the
+    entry is the same evidence unless two different byte strings have the same Keccak hash. *)
 Lemma accept_block cid n mx es p' :
   Inv cid n -> block_evidence (n_pool n) (n_chain n) mx es = (p', ROk) ->
   NoDup (map ekey es) /\
   forall e, In e es ->
-    validate_basic e = true /\ sound cid (n_chain n) e /\ is_committed (n_pool n) e = false /\
-    (is_pending (n_pool n) e = true \/ ~ expired (p_state (n_pool n)) (e_height e) (e_time e)).
+    validate_basic e = true /\ is_committed (n_pool n) e = false /\
+    ((sound cid (n_chain n) e /\ ~ expired (p_state (n_pool n)) (e_height e) (e_time e)) \/
+     (exists x, In x (p_pending (n_pool n)) /\ ekey x = ekey e /\ sound cid (n_chain n) x)).
 Proof.
   intros [Hc [Hs Hd]] H. apply block_evidence_spec in H. destruct H as [_ [_ [_ [_ Hok]]]].
   destruct (Hok eq_refl) as [Hb [Hnd [Hall _]]]. split.
@@ -244,15 +248,8 @@ Proof.
   - intros e He. rewrite forallb_forall in Hb. split; [apply Hb; auto|].
     destruct (Hall e He) as [Hp|[Hn Hv]].
     + unfold is_pending in Hp. apply existsb_exists in Hp. destruct Hp as [x [Hx Hk]].
-      apply key2_eqb_eq in Hk.
-      (* the pending entry with this key *)
-      pose proof (Hs x Hx) as Hsx. pose proof (Hd x Hx) as Hdx.
-      assert (Hcom : is_committed (n_pool n) e = false).
-      { unfold is_committed in *. rewrite <- Hk. exact Hdx. }
-      split; [|split; [exact Hcom|left; unfold is_pending; apply existsb_exists; exists x; split; auto; apply key2_eqb_eq; auto]].
-      (* soundness is a property of the stored entry; the block's evidence has the same key *)
-      exact (conj (proj1 Hsx) (proj2 Hsx)) || idtac.
-      (* the model identifies evidence by key; equal key = equal bytes is the hash assumption *)
-      admit_placeholder.
+      apply key2_eqb_eq in Hk. split.
+      * pose proof (Hd x Hx) as Hdx. unfold is_committed in *. rewrite <- Hk. exact Hdx.
+      * right. exists x. auto.
     + apply verify_ok in Hv. rewrite Hc in Hv. destruct Hv as [Hso Hex]. auto.
-Abort.
+Qed.
